@@ -111,7 +111,19 @@ class Splitter:
             if m.group(0) == "\n":
                 self._current_line += 1
                 continue
+            if not m.group(0).startswith("@") and self._is_escaped(m.start()):
+                # An escaped delimiter (e.g. `\{` or `\"`) is regular text
+                continue
             return m
+
+    def _is_escaped(self, char_index: int) -> bool:
+        """Whether the char at the index is preceded by an odd number of backslashes."""
+        num_backslashes = 0
+        while char_index - num_backslashes > 0 and (
+            self.bibstr[char_index - num_backslashes - 1] == "\\"
+        ):
+            num_backslashes += 1
+        return num_backslashes % 2 == 1
 
     def _move_to_closed_bracket(self) -> int:
         """Index of the curly bracket closing a just opened one."""
@@ -253,7 +265,7 @@ class Splitter:
             The library with the added blocks.
         """
         self._markiter = re.finditer(
-            r"(?<!\\)[\{\}\",=\n]|@[\w]*( |\t)*(?={)", self.bibstr, re.MULTILINE
+            r"[\{\}\",=\n]|@[\w]*( |\t)*(?={)", self.bibstr, re.MULTILINE
         )
 
         if library is None:
